@@ -412,6 +412,43 @@ struct C13 : Scenario {
 			p.stdin_script = scripts[rng.below(9)];
 			return p;
 		}
+		if (fam == 3) {
+			// a source that never reports end of input and never shows a header (a device, a peer that keeps talking):
+			// the search for the first header gives up after 256 KiB, whatever the bytes say about self-extractors
+			p.scenario = "endless_source";
+			p.sets("variant", "endless");
+			size_t n = 30 + rng.below(rng.chance(1, 2) ? 200 : 6000);
+			p.raw.resize(n);
+			int style = (int) rng.below(3);
+			for (auto &b : p.raw) b = style == 0 ? 0 : style == 1 ? (uint8_t) ('a' + rng.below(26)) : rng.byte();
+			scrub(p.raw, 0, n, rng);
+			// the cycle must not form a signature or marker across its seam either: scrub the doubled string
+			{ Bytes two = p.raw; two.insert(two.end(), p.raw.begin(), p.raw.end()); scrub(two, 0, two.size(), rng); p.raw.assign(two.begin() + n / 2, two.begin() + n / 2 + n); }
+			int marks = (int) rng.below(4);
+			for (int i = 0; i < marks; ++i) {
+				const char *mk = rng.chance(1, 2) ? "LHA-SFX" : "LhASFX V1.2,";
+				size_t at = rng.below(n - strlen(mk));
+				memcpy(&p.raw[at], mk, strlen(mk));
+			}
+			if (rng.chance(1, 4)) {
+				// the tool on standard input
+				p.scenario = "cli";
+				p.seti("endless", 1);
+				static const char *cmds[] = {"l", "v", "t", "x", "p", "lq", "xf"};
+				p.argv = {"lha", cmds[rng.below(7)], "-"};
+				p.sets("srckind", "FILE_PIPE");
+				return p;
+			}
+			Task t;
+			t.endless = 1;
+			int no = 1 + (int) rng.below(5);
+			for (int i = 0; i < no; ++i) {
+				Op op; op.kind = rng.chance(2, 3) ? "next" : rng.chance(1, 2) ? "read" : "check"; op.arg = 1 + (int64_t) rng.below(5000);
+				t.ops.push_back(op);
+			}
+			p.tasks.push_back(t);
+			return p;
+		}
 		p.scenario = "truncation_sweep";
 		TreeOpts o;
 		o.max_entries = 4;
@@ -431,7 +468,15 @@ struct C13 : Scenario {
 			switch (rng.below(5)) {
 				case 0: m.packed = (int64_t)(0xffffffffu - rng.below(3)); break;
 				case 1: m.orig = 0xffffffffu; break;
-				case 2: if (m.level == 3) m.hdrlen = rng.chance(1, 2) ? (int64_t) 0xffffffffu : (1 << 20) + (int64_t) rng.below(3) - 1; else m.hdrlen = m.level == 2 ? 0xffff : 0xff; break;
+				case 2: if (m.level == 3) {
+						// around the 1 MiB ceiling, far above it, and in between (where a mis-stated ceiling still admits the header)
+						switch (rng.below(4)) {
+							case 0: m.hdrlen = (int64_t) 0xffffffffu - (int64_t) rng.below(2); break;
+							case 1: m.hdrlen = (1 << 20) + (int64_t) rng.below(3) - 1; break;
+							case 2: m.hdrlen = (1 << 20) + 1 + (int64_t) rng.below(63u << 20); break;
+							default: m.hdrlen = (int64_t) 1 << (21 + rng.below(11)); break;
+						}
+					} else m.hdrlen = m.level == 2 ? 0xffff : 0xff; break;
 				case 3: m.packed = (int64_t) rng.below(1 << 30); m.orig = (int64_t) rng.below(1 << 22); break;
 				default: {
 					// level-1 chain: many / huge / unbacked extended headers
@@ -479,6 +524,8 @@ struct C13 : Scenario {
 		DriveOpts o;
 		o.ledger = true;
 		size_t len = t.trunc >= 0 ? std::min<size_t>((size_t) t.trunc, arch.size()) : arch.size();
+		// of a source that never ends, the bytes that count are those within reach of the search for the first header
+		if (t.endless) len = 256 * 1024 + 64;
 		// output actually requested: readall/check decode whole members -> bounded by declared sizes, capped by what the input can back
 		uint64_t out_req = asked_output(t);
 		uint64_t budget = 64 + 2 * (uint64_t) len + out_req / 8 + 8 * t.ops.size();
@@ -537,6 +584,7 @@ struct C13 : Scenario {
 			CliEnv env(p);
 			// linear in the input plus a constant per member for the tool's own filesystem and terminal work
 			g_sim.budget = 20000 + 64 * a.bytes.size();
+			if (p.geti("endless", 0)) { g_sim.budget = 20000 + 4 * (256 * 1024 + 64); count("kind.variant.endless_cli"); }
 			CliResult r = env.run(p, a.bytes);
 			if (r.budget)
 				res.fail("C13.liveness", "liveness:cli:" + p.argv[1].substr(0, 1), "'lha " + p.argv[1] + "' did not return: " + (g_sim.budget_where.empty() ? std::string("step budget exceeded") : g_sim.budget_where));
@@ -562,6 +610,23 @@ struct C13 : Scenario {
 		}
 		const Task &base = p.tasks[0];
 		size_t L = arch.size();
+		if (p.scenario == "endless_source") {
+			static const char *EK[] = {"FILE_PIPE", "FILE_HALFSEEK", "CB_SKIP", "CB_NOSKIP"};
+			for (int k = 0; k < 4 && res.ok; ++k) {
+				Task t = base;
+				apply_kind(t, EK[k]);
+				++evals;
+				if (!eval(p, arch, t, res, narrowed, fired)) break;
+			}
+			g_sim.counters.clear();
+			for (auto &c : fired) g_sim.counters[c.first] = c.second;
+			g_sim.counters["evals"] = evals;
+			count("kind.variant.endless_source");
+			res.ops = evals;
+			res.nontrivial = true;
+			res.trace = finish_trace();
+			return res;
+		}
 		if (p.scenario == "many_members") {
 			for (int k = 0; k < 6 && res.ok; ++k) {
 				Task t = base;
